@@ -23,6 +23,7 @@ Definition entry (cmd : Z) (args : list Z) : list Z :=
   if cmd =? 81 then entry_jp_repaired args else
   if cmd =? 82 then entry_jp_unrepaired args else
   if cmd =? 83 then entry_jp_flags args else
+  if cmd =? 84 then entry_jp_full args else
   if cmd =? 41 then entry_parse_full args else
   if cmd =? 42 then entry_config args else
   if cmd =? 43 then entry_options args else
